@@ -152,3 +152,15 @@ Theorem c20_run_is_session_model :
   forall sc acts, let '(ops, tr) := run_with_peer sc (simple_decode sc []) [] acts in tr = run_history sc ops.
 Proof. exact run_with_peer_is_run_history. Qed.
 Print Assumptions c20_run_is_session_model.
+
+(* The counterparty specification's answer to a ResendRequest has the shape the stream theorems assume: for remembered
+   messages numbered consecutively n .. past-1 (after an open gap-fill run starting at g < n, if any) and ANY decisions,
+   the burst built by Peer.replay_items -- application messages and chosen Rejects replayed, everything else covered by
+   SequenceReset-GapFills -- tiles the range exactly, and every item carries PossDupFlag. *)
+Theorem c20_peer_burst_tiles :
+  forall l gs past d n,
+  consec l n past -> (match gs with Some g => g < n | None => True end) ->
+  tiles (match gs with Some g => g | None => n end) (map shape (fst (replay_items l gs past d))) past /\
+  forallb item_dup (map shape (fst (replay_items l gs past d))) = true.
+Proof. exact replay_items_tiles. Qed.
+Print Assumptions c20_peer_burst_tiles.
